@@ -80,7 +80,14 @@ def decoder_cases():
     # many one-byte items across the boundary
     for total in (WIN - 1, WIN, WIN + 1, 2 * WIN):
         L.append(("dec s R%d:0 %s" % (0, "pk"), ["E:end"]))
-    return L
+    # the same sessions on a stream whose bytes arrive while it is read (a pipe fed by another thread): every 5th case
+    extra = []
+    for k, (line, exp) in enumerate(L):
+        parts = line.split(" ")
+        if k % 5 == 0 and parts[1] in ("s", "f", "s+", "f+"):
+            parts[1] = "p" + parts[1][1:]
+            extra.append((" ".join(parts), exp))
+    return L + extra
 
 
 FNV0 = 14695981039346656037
@@ -167,8 +174,10 @@ def check(run):
         for _ in range(60 if quick else 1200):
             cuts.add(rng.randrange(0, len(data) + 1))
         cuts = sorted(cuts)
-        for kind in (["s"] if quick else ["s", "f"]):
+        for kind in (["s", "p"] if quick else ["s", "f", "p"]):
             for j in range(0, len(cuts), 64):
+                if kind == "p" and j >= 3 * 64:
+                    break                      # (the pipe-fed stream: a sample of the cuts of every file)
                 chunk = cuts[j:j + 64]
                 lines.append("rdc %s %s %s" % (kind, data.hex(), ",".join(map(str, chunk))))
                 metas.append((data, pre, blocks, hdr_end, ends, chunk))
